@@ -24,8 +24,17 @@ def FactsOK : Bool :=
   C06.topRange == "AllTargets" && C06.topVisitsLoopVar && C06.topReturnsResult &&
   -- nothing survives from one Check() to the next: both sets are fresh locals of Check, the detector has no
   -- collection-typed field and Check assigns to none of its fields
-  genPersist == Persist.none && C06.detectorCollectionFields == [] && C06.checkWritesFields == [])
+  genPersist == Persist.none && C06.detectorCollectionFields == [] && C06.checkWritesFields == [] &&
+  -- `visit` ranges over `Dependencies()`, which returns every resolved dependency whatever its kind, while
+  -- `BuildDependencies()` filters on how the dependency was declared
+  genAccessor == Accessor.all &&
+  C06.accessorDependencies == ["T.mutex.RLock()", "defer T.mutex.RUnlock()", "F1 := make(BuildTargets, 0, len(T.dependencies))",
+    "for _, v01 := range T.dependencies { for _, v02 := range v01.v01 { F1 = append(F1, v02) } }", "sort.Sort(F1)", "return F1"] &&
+  C06.accessorBuildDependencies == ["T.mutex.RLock()", "defer T.mutex.RUnlock()", "F1 := make(BuildTargets, 0, len(T.dependencies))",
+    "for _, v01 := range T.dependencies { if !v01.runtime && !v01.data && !v01.internal && !v01.source { for _, v02 := range v01.v01 { F1 = append(F1, v02) } } }",
+    "sort.Sort(F1)", "return F1"])
 
+set_option maxRecDepth 100000 in
 /-- Obligation a code change can break: the facts extracted from /repo satisfy the side condition. -/
 theorem C06_facts_ok : FactsOK = true := by decide
 
@@ -120,7 +129,7 @@ Production keeps one `cycleDetector` per build and re-runs `Check()` while depen
 theorem persist_none : genPersist = Persist.none := by
   have h := C06_facts_ok
   simp only [FactsOK, Bool.and_eq_true, beq_iff_eq] at h
-  exact h.2.1.1.2
+  exact h.2.1.1.1.1.1.2
 
 /-- the results of a sequence of `Check()` calls on one detector -/
 def checks (st : DetState) (calls : List (Graph × List Nat)) : List Res := runSeq genCfg genPersist st calls
@@ -156,6 +165,45 @@ def gB : Graph := fun | 0 => [1] | 1 => [0] | _ => []
 example : checks ⟨[], []⟩ [(gA, [0, 1]), (gB, [0, 1])] = [.none, .cyc [1, 0] true] := by decide
 /-- what a detector that keeps `complete` between calls would answer: the cycle is never seen -/
 example : runSeq genCfg ⟨true, false⟩ ⟨[], []⟩ [(gA, [0, 1]), (gB, [0, 1])] = [.none, .none] := by decide
+
+/-! ## dependencies of every kind
+
+A resolved dependency is a build-time dependency, a source label, data, a run-time or an internal dependency
+(`Kind`).  The detector must search the graph over ALL of them. -/
+
+theorem accessor_all : genAccessor = Accessor.all := by
+  have h := C06_facts_ok
+  simp only [FactsOK, Bool.and_eq_true, beq_iff_eq] at h
+  exact h.2.1.1.2
+
+/-- `Check()` on a graph whose edges have kinds, with the accessor read from the source -/
+def kchecked (kg : KGraph) (nodes : List Nat) : Res := kcheck genCfg genAccessor kg nodes
+
+theorem kchecked_eq (kg : KGraph) (nodes : List Nat) : kchecked kg nodes = check (allDeps kg) nodes := by
+  unfold kchecked kcheck
+  rw [accessor_all]
+  rfl
+
+/-- Soundness over the union graph: a reported cycle is a genuine cycle of the graph of ALL resolved dependencies. -/
+theorem C06_kinds_sound (kg : KGraph) (nodes c : List Nat) (d : Bool) (h : kchecked kg nodes = .cyc c d) :
+    c ≠ [] ∧ Chain (allDeps kg) c ∧ ∃ hd l, c.head? = some hd ∧ c.getLast? = some l ∧ Edge (allDeps kg) l hd := by
+  rw [kchecked_eq] at h
+  exact C06_sound (allDeps kg) nodes c d h
+
+/-- Completeness over the union graph: a cycle through a listed target is reported whatever the kinds of its edges
+(deps, sources, data, run-time, internal). -/
+theorem C06_kinds_complete (kg : KGraph) (nodes : List Nat) (hwf : WF (allDeps kg) nodes) (a : Nat) (ha : a ∈ nodes)
+    (p : Path (allDeps kg) a a) : ∃ c d, kchecked kg nodes = .cyc c d := by
+  rw [kchecked_eq]
+  exact C06_complete (allDeps kg) nodes hwf a ha p
+
+/-- witness: 0 depends on 1 (a build dependency), 1 uses 0 as DATA.  That is a cycle of the resolved graph; a detector
+that iterated only the build-time sub-relation would search 0→1 alone and report nothing. -/
+def kgW : KGraph := fun | 0 => [(1, Kind.dep)] | 1 => [(0, Kind.data)] | _ => []
+
+theorem C06_witness_build_only_misses_data_cycle :
+    Path (allDeps kgW) 0 0 ∧ kcheck genCfg Accessor.build kgW [0, 1] = .none ∧ kchecked kgW [0, 1] = .cyc [1, 0] true :=
+  ⟨.cons (b := 1) (by unfold Edge; decide) (.single (by unfold Edge; decide)), by decide, by decide⟩
 
 -- non-vacuity: the shapes named in the property's rationale
 /-- 0→1→2→0 -/
